@@ -235,6 +235,10 @@ def r13_6(prog, rep):
 def run(prog: Program, rep: Report, tier: str):
     rep.rule("R13.10", "a compiled pattern passes through for re.Pattern[str] as for re.Pattern (shared with R17.11)", floor=4)
     C.param_spelling_agreement(prog, rep, "R13.10")
+    rep.rule("R13.11", "an instance of a class without annotations is read by what it answers to (shared with R18.13)", floor=1)
+    from . import c18 as _c18
+
+    _c18.fields_the_instance_answers_to(prog, rep, "R13.11")
     rep.rule("R13.6", "signature-derived fields cover every named constructor parameter", floor=1)
     r13_6(prog, rep)
     rep.rule("R13.7", "results are never rebuilt from a partial projection of an already-valid input", floor=4)
